@@ -94,6 +94,11 @@ def materials(c):
         "narrow": f"hmm={en},beam=1e-12,pbeam=1e-12,wbeam=1e-8",
         "maxhmm": f"hmm={en},maxhmmpf=40",
         "ds2": f"hmm={en},ds=2,topn=2",
+        # vocal-tract-length warping of the mel filter bank: fe_warp_*.c keep the warp in process-wide statics written by fe_init
+        "warp_il": f"hmm={en},warp_params=1.1",
+        "warp_il2": f"hmm={en},warp_type=inverse_linear,warp_params=0.92",
+        "warp_af": f"hmm={en},warp_type=affine,warp_params=1.05~20",
+        "warp_pw": f"hmm={en},warp_type=piecewise_linear,warp_params=1.1~6000",
     }
     return {"audio": aud, "gram": gram, "cfgs": cfgs, "fsg": str(data / "goforward.fsg")}
 
@@ -429,7 +434,7 @@ def check_model_tie(c, run, tables, stats, label, live_cmn):
         mw = dict(x.split("=", 1) for x in mo.split(" ") if "=" in x)
         opname = mw.get("op", "?")
         stats["model_ops"][opname] = stats["model_ops"].get(opname, 0) + 1
-        if opname == "new":
+        if opname == "initFe":       # decoder creation: there is no snapshot before it
             continue
         S = next((l for l in r["out"] if l.startswith("S ")), None)
         W = next((l for l in r["out"] if l.startswith("W ")), None)
@@ -564,22 +569,47 @@ def gen_pair(rng, mat, stats):
     return [gen_history(rng, mat, stats) for _ in range(2)]
 
 
-def judge_pair(c, binp, mat, pair, stats, rng, pre):
+WARP_POOL = ["batchcmn", "warp_il", "warp_il", "warp_il2", "warp_af", "warp_pw"]
+
+
+def warp_member(cfg, a=0, ln=24000):
+    """a decoder of a creation-order group: created with `cfg`, one short utterance"""
+    u = {"a": a, "off": 0, "len": ln, "mode": "stream", "fmt": "i", "partial": [], "flags": 0, "chunks": [ln],
+         "chunking": "whole", "nosearch": [0]}
+    g = {"kind": "jsgf", "i": 0}
+    return {"cfg": cfg, "items": [{"op": "gram", "g": g}], "target": {"g": g, "cmn": CMN_TEXTS[0], "utt": u, "no_cmn_reset": False},
+            "poison": 0, "poison_seed": 0}
+
+
+def gen_warp_group(rng, mat, stats):
+    """three or four decoders created in one process with frequency-warp configurations drawn with replacement (so the same
+    warp comes back after another one or after none): each must equal its solo run in a fresh process"""
+    cfgs = [rng.choice(WARP_POOL) for _ in range(rng.range(3, 4))]
+    if len(set(cfgs)) == 1:
+        cfgs[1] = "batchcmn" if cfgs[0] != "batchcmn" else "warp_il"
+    for x in cfgs:
+        stats["configs"][x] = stats["configs"].get(x, 0) + 1
+    stats["warp_groups"] = stats.get("warp_groups", 0) + 1
+    return [warp_member(x, a=rng.choice([0, 7]), ln=rng.choice([16000, 24000])) for x in cfgs]
+
+
+def judge_pair(c, binp, mat, pair, stats, rng, pre, sequential=False):
     lists = []
     for d, h in enumerate(pair):
         ops, _ = history_ops(h, mat, d=d, poison=False)
         lists.append(ops)
-    # interleave at call granularity
-    order, pos = [], [0, 0]
-    while pos[0] < len(lists[0]) or pos[1] < len(lists[1]):
-        d = rng.below(2)
-        if pos[d] >= len(lists[d]):
-            d = 1 - d
-        burst = rng.range(1, 4)
-        for _ in range(burst):
-            if pos[d] < len(lists[d]):
-                order.append(lists[d][pos[d]])
-                pos[d] += 1
+    # interleave at call granularity (or, for creation-order scenarios, one decoder after the other)
+    n = len(lists)
+    order, pos = [], [0] * n
+    if sequential:
+        order = [op for l in lists for op in l]
+    else:
+        while any(pos[d] < len(lists[d]) for d in range(n)):
+            d = rng.choice([d for d in range(n) if pos[d] < len(lists[d])])
+            for _ in range(rng.range(1, 4)):
+                if pos[d] < len(lists[d]):
+                    order.append(lists[d][pos[d]])
+                    pos[d] += 1
     with cf.ThreadPoolExecutor(3) as ex:
         fi = ex.submit(run_ops, binp, pre, order)
         fs = [ex.submit(run_ops, binp, pre, l) for l in lists]
@@ -590,10 +620,10 @@ def judge_pair(c, binp, mat, pair, stats, rng, pre):
             if "decoder_alignment" in r["err"] and any(any_alignment(h) for h in pair):
                 stats.setdefault("sanitizer_reports_inside_decoder_alignment", []).append(
                     (r["err"].split("runtime error:")[-1] if "runtime error:" in r["err"] else r["err"])[:160].strip())
-                return judge_pair(c, binp, mat, [without_alignment(h) for h in pair], stats, rng, pre)
+                return judge_pair(c, binp, mat, [without_alignment(h) for h in pair], stats, rng, pre, sequential)
             return {"kind": "crash", "exit_code": r["rc"], "stderr_tail": r["err"][-1500:], "ops": ops,
                     "last_command": r["recs"][-1]["cmd"] if r["recs"] else None}
-    for d in range(2):
+    for d in range(n):
         inter = [(r["cmd"], observable(r)) for r in ri["recs"] if r["cmd"].split()[1:2] == [str(d)]]
         solo = [(r["cmd"], observable(r)) for r in rs[d]["recs"]]
         diff = first_diff(inter, solo)
@@ -755,7 +785,9 @@ def check(c):
         if "pair" in obj:
             prng = vlib.Rng(1)
             prng.s = obj.get("interleave_rng_state", prng.s)
-            res = judge_pair(c, binp, mat, obj["pair"], stats, prng, pre)
+            res = judge_pair(c, binp, mat, obj["pair"], stats, prng, pre, obj.get("sequential", False))
+            if res is not None:
+                res["pair"], res["sequential"] = obj["pair"], obj.get("sequential", False)
         else:
             res = judge_history(c, binp, mat, obj["history"], tables, stats, f"corpus {f.name}", pre)
         if res is not None and not report(c, res, obj.get("history"), mat, f"corpus {f.name}", stats):
@@ -795,6 +827,19 @@ def check(c):
                 res["interleave_rng_state"] = seed_state
                 report(c, res, None, mat, f"pair {i}", stats)
                 break
+    ngroup = {"quick": 2, "thorough": 40}[c.tier] if ok and not corpus_failed else 0
+    for i in range(ngroup):
+        grp = gen_warp_group(rng, mat, stats)
+        irng = rng.fork()
+        seed_state = irng.s
+        seq = rng.chance(0.5)
+        res = judge_pair(c, binp, mat, grp, stats, irng, pre, sequential=seq)
+        npairs_done += 1
+        if res is not None:
+            ok = False
+            res["pair"], res["sequential"], res["interleave_rng_state"] = grp, seq, seed_state
+            report(c, res, None, mat, f"warp group {i}", stats)
+            break
     nprobe = 0
     if ok and c.tier == "thorough":
         ok, nprobe = selection_history_probe(c, binp, mat, rng, pre, stats)
@@ -814,7 +859,7 @@ def check(c):
                                                          for op in stats["declared_writes"]
                                                          if stats["declared_writes"][op] - stats["observed_writes"].get(op, set())}
         allops = ["startUtt", "processNoFrame", "processFirst", "processMore", "processFull", "processFullLive", "endUtt",
-                  "endUttEmpty", "query", "queryAlign", "setGrammar", "setCmn", "getCmn", "getCmnUpdate"]
+                  "endUttEmpty", "query", "queryAlign", "setGrammar", "setCmn", "getCmn", "getCmnUpdate", "initFe"]
         stats["model_ops_never_exercised"] = [o for o in allops if o not in stats["model_ops"]]
     stats["observed_writes"] = {k: sorted(v) for k, v in stats["observed_writes"].items()}
     stats.pop("declared_writes", None)
@@ -865,6 +910,8 @@ def selection_history_probe(c, binp, mat, rng, pre, stats):
 def witness_class(res, h):
     """stable identifier of the class of a witness (the key of a known_findings.json entry, should one be needed)"""
     k = res["kind"]
+    if k == "two-decoders-interfere" and any(x["cfg"].startswith("warp") for x in res.get("pair", [])):
+        return k + "/decoders-created-with-different-frequency-warps"
     if h is None or k not in ("kth-utterance-differs-from-fresh-decoder",):
         return k
     t = h["target"]["utt"]
@@ -921,7 +968,9 @@ def replay(c, path):
     if "pair" in obj:
         rng = vlib.Rng(1)
         rng.s = obj.get("interleave_rng_state", rng.s)
-        res = judge_pair(c, binp, mat, obj["pair"], stats, rng, pre)
+        res = judge_pair(c, binp, mat, obj["pair"], stats, rng, pre, obj.get("sequential", False))
+        if res is not None:
+            res["pair"], res["sequential"] = obj["pair"], obj.get("sequential", False)
     else:
         res = judge_history(c, binp, mat, obj["history"], tables, stats, "replay", pre)
     if res is not None:
